@@ -29,7 +29,7 @@ GUARDS = {"x509_certs_verify", "x509_certs_verify_tlcp", "tls_verify_server_ecdh
           "tls13_verify_certificate_verify", "tls_client_verify_finish", "memcmp", "gmssl_secure_memcmp",
           "tls_record_get_handshake_certificate", "tls13_record_get_handshake_certificate", "tls13_process_certificate_list",
           "x509_certs_get_cert_by_index", "sm2_decrypt", "tls_record_decrypt", "tls13_record_decrypt"}
-VERSION = "3"
+VERSION = "4"
 
 
 def _text(src, node):
@@ -76,17 +76,32 @@ def _calls_in(n, src, state, path):
     if name in GUARDS:
         test = "unchecked"
         child = n
-        for p in reversed(path):
+        rest = []
+        for k, p in enumerate(reversed(path)):
             if p.get("kind") == "BinaryOperator" and p.get("opcode") in ("!=", "==", "<", ">", "<=", ">="):
                 other = [c for c in p.get("inner", []) if c is not child]
                 test = p["opcode"] + (_text(src, other[0]) if other else "?")
+                rest = list(reversed(path))[k + 1:]
+                child = p
                 break
             if p.get("kind") == "UnaryOperator" and p.get("opcode") == "!":
                 test = "!"
+                rest = list(reversed(path))[k + 1:]
+                child = p
                 break
             if p.get("kind") not in ("ImplicitCastExpr", "ParenExpr", "CStyleCastExpr"):
                 break
             child = p
+        # the failing comparison alone must make the whole condition true: between it and the root of
+        # the condition only `||` (and parentheses) may occur; anything else (&&, ?:, !) weakens the guard
+        for p in rest:
+            if p.get("kind") in ("ImplicitCastExpr", "ParenExpr"):
+                child = p; continue
+            if p.get("kind") == "BinaryOperator" and p.get("opcode") == "||":
+                child = p; continue
+            other = [c for c in p.get("inner", []) if c is not child]
+            test = "weakened:" + test + ":" + str(p.get("opcode", p.get("kind"))) + ":" + (_text(src, other[0]) if other else "?")
+            break
         yield (name, state["line"], test)
     for c in n.get("inner", []):
         yield from _calls_in(c, src, state, path + [n])
